@@ -2,7 +2,7 @@ SPECIFICATION Spec
 CONSTANTS
   AttrPrefixes = {"-", "@", ""}
   KeyPrefixes = {"#", "_"}
-  FieldSeps = {":", "|"}
+  FieldSeps = {":", "|", "::"}
   ArraySizes = {0, 64}
   ActiveFns <- AllFns
   ActiveOps <- AllOpNames
